@@ -26,7 +26,11 @@ PROP = {
         "what Array/Map constructors and BTreeMap maintain; the harness builds contexts with "
         "the engine's checked constructors",
         "paths satisfy PathOk for the identifier's type: proved to be what the parser's index "
-        "loop enforces (parser_paths_ok)",
+        "loop enforces (parser_paths_ok); at CHARACTER level, for written suffixes [k] / [\"key\"] "
+        "(no [*]) with layout inside the brackets: Props/C01Atoms.lean index_path_parses (a path "
+        "well-typed for the field's declared type is read to exactly its indexes and final type) "
+        "and index_path_illtyped_rejected (an ill-typed one fails with InvalidIndexAccess) - "
+        "checked under C01, not part of C02's modules",
         "vec_logic / any_iff_exists / all_iff_forall are stated for operands that evaluate to "
         "boolean arrays (no Stuck outcome); absence of Stuck for well-typed filters is C04",
     ],
